@@ -2,7 +2,7 @@
 (* G-mode product:  Env x PacketFrame monitor x implementation graph G of the  *)
 (* REAL Packetizer / Depacketizer netlists, computed on demand by              *)
 (* harness/graphloop.py (DESIGN.md 2, mode G).                                 *)
-EXTENDS PacketFrame, Json, IOUtils
+EXTENDS PacketFrame, Json, IOUtils, GraphLookup
 
 G == JsonDeserialize(IOEnv.GRAPH)
 NDuts == Len(G.duts)
@@ -19,13 +19,12 @@ Init == /\ d \in 1..NDuts /\ s = 0 /\ ph = 0 /\ CInit
 
 Step(iv) ==
   /\ s >= 0
-  /\ LET k == ToString(iv) IN
-       IF k \in DOMAIN G.duts[d].succ[s + 1]
-       THEN LET e == G.duts[d].succ[s + 1][k] IN
-            /\ s' = e.d /\ d' = d
-            /\ CStep(C, NormI(C, iv), NormO(C, e.o))
-            /\ ph' = IF s' = s /\ cvars' = cvars THEN 1 - ph ELSE 0
-       ELSE /\ PrintT(<<"NEED", d, s, iv>>)
+  /\ LET e == GLookup(G.duts[d].succ[s + 1], iv) IN          \* <<iv, outputs, successor>> or <<>>
+       IF e # <<>>
+       THEN /\ s' = e[3] /\ d' = d
+            /\ CStep(C, NormI(C, iv), NormO(C, e[2]))
+            /\ ph' = IF e[3] = s /\ cvars' = cvars THEN 1 - ph ELSE 0
+       ELSE /\ PrintT(<<"NEED", d, s, iv>>)                   \* ask the harness for this edge
             /\ s' = -1 /\ d' = d /\ ph' = 0 /\ UNCHANGED cvars
 
 Next == \E iv \in Inputs(C) : Step(iv)
